@@ -118,7 +118,10 @@ class DMLMixin:
                 while isinstance(core, A.With):
                     core = core.body
                 plain = isinstance(core, A.Select)
-                if _has_uvar_assign(sel) and (buffered or not plain or core.order_by or core.distinct or core.limit is not None):
+                uv = getattr(ins, '_plan', None)
+                if uv is None:
+                    uv = ins._plan = _has_uvar_assign(sel)
+                if uv and (buffered or not plain or core.order_by or core.distinct or core.limit is not None):
                     raise Unsupported('INSERT ... SELECT assigning user variables in a select that MySQL buffers or sorts (target table '
                                       'read directly, UNION, ORDER BY, DISTINCT or LIMIT): per-row @var semantics differ', ins.text or '')
                 # columns of the SELECT's tables are visible to ON DUPLICATE KEY UPDATE only for a plain, ungrouped SELECT
